@@ -20,6 +20,7 @@ def jobs(tier, seed):
         if j['cfg']['pad'] < 0 or j['cfg']['pad'] % 64 == 0: out.append(dict(j, family='build-save-load'))
     for j in c04.jobs(tier, seed):
         if tier == 'quick' and j['name'] in ('labels_more', 'desc255'): continue
+        if j['name'] == 'align' and j['opts']['extras'][0]['desc_len'] % 32 != 31: continue      # the alignment sweep is C04's subject; keep the 255-character cases
         out.append(dict(j, family='load-save-load'))
     for j in histcommon.hist_jobs(tier, seed, finish=1): out.append(dict(j, family='history'))
     for j in c06.jobs(tier, seed): out.append(dict(j, family='frame-store'))
